@@ -60,6 +60,7 @@ Flip(name) == [i \in 1..Len(name) |-> FlipCp(name[i])]
 Under(name) == IF name = <<>> THEN <<95>> ELSE <<name[1], 95>> \o Tail(name)
 
 RECURSIVE Values(_, _)
+RECURSIVE ExtraV(_, _)
 Values(t, d) ==
     CASE t.k = "bool" -> {[b |-> FALSE], [b |-> TRUE]}
       [] t.k = "str" -> {[s |-> <<>>], [s |-> <<97>>]} \cup (IF d = 0 THEN {} ELSE {[s |-> <<60, 233, 34, 128512>>]})
@@ -98,7 +99,7 @@ Values(t, d) ==
                             \* a fallback entry named like the first field, and like it up to case
                             \cup (IF t.f = <<>> THEN {} ELSE
                                   {[nil |-> FALSE, m |-> << <<[s |-> nm], x>> >>] : nm \in {t.f[1].name, Flip(t.f[1].name)}, x \in Values(t.fb[1], 0)}) IN
-            {[f |-> s, fb |-> fb] : s \in Product([i \in 1..Len(t.f) |-> Values(t.f[i].t, Dec(d))]), fb \in fbs}
+            {[f |-> s, fb |-> fb] : s \in Product([i \in 1..Len(t.f) |-> Values(t.f[i].t, Dec(d)) \cup ExtraV(t.f[i].t, t.f[i].fmt)]), fb \in fbs}
 
 \* ---- JSON inputs
 N(lit) == [t |-> "num", lit |-> lit]
@@ -106,6 +107,31 @@ S(s) == [t |-> "str", s |-> s]
 B(x) == [t |-> "bool", b |-> x]
 Arr(e) == [t |-> "arr", e |-> e]
 Obj(m) == [t |-> "obj", m |-> m]
+
+\* ---- what a `format` option adds to the universe of a field
+\* values: the non-finite floats (an error without the format nonfinite)
+ExtraV(t, f) ==
+    CASE t.k = "float" /\ f # "" -> {NaNV, InfV(FALSE), InfV(TRUE)}
+      [] t.k = "ptr" -> {[nil |-> FALSE, e |-> x] : x \in ExtraV(t.e, f)}
+      [] OTHER -> {}
+
+\* inputs: texts in the encoding the format names - well formed, with the characters of the
+\* other alphabets, with too little, too much or misplaced padding, with line breaks - and the
+\* names of the non-finite floats
+BinInputs(f) ==
+    CASE f = "base32" -> {S(<<65, 65, 61, 61, 61, 61, 61, 61>>), S(<<55, 52, 65, 81, 61, 61, 61, 61>>), S(<<65, 69, 66, 65, 71, 61, 61, 61>>), S(<<78, 66, 85, 83, 67, 65, 65, 61>>), S(<<65, 69, 66, 65, 71, 66, 65, 70>>), S(<<65, 65, 61, 61, 61, 61, 61, 61, 61>>), S(<<65, 65, 61, 61, 61, 61, 61>>), S(<<97, 97, 61, 61, 61, 61, 61, 61>>), S(<<65, 65, 61, 61, 61, 61, 61, 61, 65, 65, 61, 61, 61, 61, 61, 61>>), S(<<65, 69>>), S(<<65, 61, 61, 61, 61, 61, 61, 61>>), S(<<65, 69, 66, 65, 71, 61, 61, 61, 10>>), S(<<65, 65, 65, 61, 61, 61, 61, 61>>), S(<<65, 66, 61, 61, 61, 61, 61, 61>>), S(<<65, 69, 66, 65, 71, 66, 65, 70, 61, 61, 61, 61, 61, 61, 61, 61>>), S(<<55, 52, 65, 81, 61, 61, 61>>), S(<<65, 65, 61, 61, 61, 61, 61, 61, 13, 10>>)}
+      [] f = "base32hex" -> {S(<<48, 48, 61, 61, 61, 61, 61, 61>>), S(<<86, 83, 48, 71, 61, 61, 61, 61>>), S(<<48, 52, 49, 48, 54, 61, 61, 61>>), S(<<68, 49, 75, 73, 50, 48, 48, 61>>), S(<<48, 48, 61, 61, 61, 61, 61, 61, 61>>), S(<<118, 115, 48, 103, 61, 61, 61, 61>>), S(<<87, 48, 61, 61, 61, 61, 61, 61>>), S(<<48, 48, 61, 61, 61, 61, 61, 61, 48, 48, 61, 61, 61, 61, 61, 61>>)}
+      [] f \in {"base64", "base64url"} -> {S(<<95, 119, 69, 61>>), S(<<47, 119, 69, 61>>), S(<<45, 95, 45, 95>>), S(<<43, 47, 43, 47>>), S(<<95, 119, 69>>), S(<<95, 119, 69, 61, 61>>), S(<<47, 119, 69, 61, 61>>)}
+      [] f \in {"base16", "hex"} -> {S(<<48, 48>>), S(<<102, 102, 48, 49>>), S(<<70, 70, 48, 49>>), S(<<48, 49, 48, 50, 48, 51>>), S(<<54, 56, 54, 57, 50, 49, 48, 65>>), S(<<48>>), S(<<48, 103>>), S(<<48, 120, 48, 48>>), S(<<32, 48, 48>>), S(<<48, 48, 10>>), S(<<61>>)}
+      [] f = "array" -> {Arr(<<N(<<48>>)>>), Arr(<<N(<<50, 53, 53>>), N(<<49>>)>>), Arr(<<N(<<50, 53, 54>>)>>), Arr(<<N(<<45, 49>>)>>), Arr(<<S(<<49>>)>>),
+                         Arr(<<N(<<49>>), N(<<50>>), N(<<51>>)>>), Arr(<<N(<<49, 46, 48>>)>>), Arr(<<JNull>>)}
+      [] OTHER -> {}
+RECURSIVE ExtraI(_, _)
+ExtraI(t, f) ==
+    CASE t.k \in {"bytes", "barr"} -> BinInputs(f)
+      [] t.k = "float" /\ f # "" -> {S(NaNName), S(InfName), S(<<45>> \o InfName), S(<<43>> \o InfName), S(<<110, 97, 110>>), S(<<73, 110, 102>>)}
+      [] t.k = "ptr" -> ExtraI(t.e, f)
+      [] OTHER -> {}
 
 IntInputs(t, d) ==
     {N(<<48>>), N(<<49>>), N(<<45, 49>>), N(<<49, 46, 48>>), S(<<49>>)}
@@ -165,7 +191,7 @@ Inputs(t, d) ==
       [] t.k = "struct" ->
             LET idx == 1..Len(t.f) IN
             {Obj(<<>>)}
-            \cup UNION {{Obj(<< <<t.f[i].name, x>> >>) : x \in Inputs(t.f[i].t, Dec(d))} : i \in idx}
+            \cup UNION {{Obj(<< <<t.f[i].name, x>> >>) : x \in Inputs(t.f[i].t, Dec(d)) \cup ExtraI(t.f[i].t, t.f[i].fmt)} : i \in idx}
             \* members for the embedded fallback: under the name its entries in Values have, and twice
             \cup (IF t.fb = <<>> THEN {} ELSE
                   {Obj(<< <<<<122>>, x>> >>) : x \in Inputs(t.fb[1], Dec(d))}
@@ -231,6 +257,17 @@ CleanFB(t, v) ==
                     /\ \A i \in 1..Len(t.f) : FF!Fold(t.f[i].name) # FF!Fold(v.fb.m[k][1].s)
                     /\ CleanFB(t.fb[1], v.fb.m[k][2])
       [] OTHER -> TRUE
+
+\* the general codec agrees with the transcription of RFC 4648 section 4 for Base 64, and for
+\* every encoding reading what was written gives the bytes back
+RECURSIVE ByteStrings(_)
+ByteStrings(n) == IF n = 0 THEN {<<>>} ELSE LET r == ByteStrings(n - 1) IN r \cup {Append(x, y) : x \in r, y \in {0, 104, 255}}
+CodecLaws == (ph = "pick" /\ ti = 1 /\ oi = 1) =>
+    /\ \A bb \in ByteStrings(5) :
+          /\ BaseEnc("base64", bb) = B64Enc(bb)
+          /\ \A f \in BinFormats : BaseDec(f, BaseEnc(f, bb)) = [ok |-> TRUE, b |-> bb]
+    /\ \A j \in Inputs(BytesT, 1) \cup BinInputs("base64") \cup BinInputs("base32") :
+          j.t = "str" => BaseDec("base64", j.s) = B64Dec(j.s)
 
 ParseRender == (ph = "case" /\ mode = "m") =>
     LET j == Marshal(T, a, MO, NoSt) IN ~IsErr(j) => ParseJ(Render(j)) = j
